@@ -612,7 +612,7 @@ func checkClientErrorMapping(c *Ctx) {
 	for _, v := range tex.Variants {
 		for _, u := range v.Units {
 			for _, l := range u.Lines {
-				if l.Fn != nil && l.Fn.Name() == "generateHandleError" {
+				if l.Fn != nil && l.Fn == c.P.Func(pkgTSClient, "Generator.generateHandleError") {
 					lines = append(lines, lineText(l.Segs))
 				}
 			}
